@@ -285,7 +285,7 @@ impl Serialize for SubpacketData {
                 // 4 for the flags, 2 for the name length, 2 for the value length, m for the name, n for the value
                 4 + 2 + 2 + n.name.len() + n.value.len()
             }
-            SubpacketData::RevocationKey(_) => 22,
+            SubpacketData::RevocationKey(rev_key) => 2 + rev_key.fingerprint.len(),
             SubpacketData::SignersUserID(body) => {
                 let bytes: &[u8] = body.as_ref();
                 bytes.len()
